@@ -1,10 +1,13 @@
 import Driver.Common
 import SH.Model.Agg
+import SH.Model.UniqueTable
 import SH.Gen.C04
 
 /-!
   drv_c04 — replays the op stream of go/C04/overlay/cmd/verif-c04 on the model (SH.Model.Agg, SH.Model.Unique).
   Registers m0..m15 hold MultiValue (ItemValue + ChUnique), t0..t7 hold API rows (tsValues).
+  Every sketch op is replayed twice: on the set model (SH.Model.Unique, `U` lines) and on the concrete open-addressing
+  table (SH.Model.UniqueTable, `B` lines: slot-by-slot layout digest and the executable well-formedness check).
   The model variant is the code after the fix: commits (Merge filters with the receiver's skipDegree, MergeRead
   adopts the incoming skipDegree, table degree clamped to the maximum); constants come from SH.Gen.C04 (regenerated from /repo).
 -/
@@ -18,6 +21,10 @@ def SV : SdV := .clamp
 structure St where
   m : Array Multi
   t : Array Ts
+  mb : Array UTable.Tb     -- concrete table of m[i].u
+  tb : Array UTable.Tb     -- concrete table of t[i].u
+
+def RZ : UTable.ResizeV := .full
 
 def tsZero : Ts :=
   { min := 0, max := 0, sum := 0, count := 0, sumsq := 0, card := 0, mergeCount := 0,
@@ -26,7 +33,10 @@ def tsZero : Ts :=
 instance : Inhabited Multi := ⟨Multi.zero⟩
 instance : Inhabited Ts := ⟨tsZero⟩
 
-def St.init : St := { m := Array.replicate 16 Multi.zero, t := Array.replicate 8 tsZero }
+instance : Inhabited UTable.Tb := ⟨UTable.nilTb⟩
+
+def St.init : St := { m := Array.replicate 16 Multi.zero, t := Array.replicate 8 tsZero,
+                      mb := Array.replicate 16 UTable.nilTb, tb := Array.replicate 8 UTable.nilTb }
 
 def b01 (b : Bool) : String := if b then "1" else "0"
 
@@ -42,6 +52,18 @@ def showU (s : Sk) : String :=
   let x := nz.foldl (fun a b => a ^^^ b) 0
   let base := s!"U nil={b01 (!s.alloc)} k={s.k} sd={s.sd} n={s.cnt} z={b01 (has P s 0)} stored={nz.length} sum={sum} xor={x}"
   if nz.length ≤ 40 then base ++ s!" items={showList (sortNat nz)}" else base
+
+def posDigest (l : List Nat) : Nat :=
+  (l.foldl (fun (a : Nat × Nat) x => (a.1 + 1, (a.2 + (a.1 + 1) * x) % 18446744073709551616)) (0, 0)).2
+
+def showB (t : UTable.Tb) : String :=
+  let l := t.buf.toList
+  let base := s!"B nil={b01 (!t.alloc)} k={t.k} sd={t.sd} n={t.cnt} z={b01 t.zero} slots={l.length} wf={b01 (UTable.wfb P t)} pos={posDigest l}"
+  if l.length ≤ 64 then base ++ s!" buf={showList l}" else base
+
+def seqInsertB (t : UTable.Tb) (base stride : Nat) : Nat → Nat → UTable.Tb
+  | 0, _ => t
+  | n + 1, i => seqInsertB (UTable.insertHash RZ P t ((((base + i * stride) % 4294967296) * 2654435761) % 4294967296)) base stride n (i + 1)
 
 def showArg (a : Arg) : String := s!"{a.arg}:{a.val}"
 
@@ -63,15 +85,17 @@ def seqInsert (s : Sk) (base stride : Nat) : Nat → Nat → Sk
 def bad (st : St) : St × List String := (st, ["bad-op"])
 
 def setM (st : St) (r : Nat) (x : Multi) : St := { st with m := st.m.set! r x }
+def setB (st : St) (r : Nat) (x : UTable.Tb) : St := { st with mb := st.mb.set! r x }
+def setTB (st : St) (r : Nat) (x : UTable.Tb) : St := { st with tb := st.tb.set! r x }
 def setT (st : St) (r : Nat) (x : Ts) : St := { st with t := st.t.set! r x }
 
 def stepM (st : St) (toks : List String) : St × List String :=
   match toks with
   | ["new", r] => match reg? r 16 with
-    | some r => (setM st r Multi.zero, [])
+    | some r => (setB (setM st r Multi.zero) r UTable.nilTb, [])
     | none => bad st
   | ["copy", r1, r2] => match reg? r1 16, reg? r2 16 with
-    | some r1, some r2 => (setM st r1 st.m[r2]!, [])
+    | some r1, some r2 => (setB (setM st r1 st.m[r2]!) r1 st.mb[r2]!, [])
     | _, _ => bad st
   | ["cnt", r, c, h] => match reg? r 16, c.toInt?, h.toNat? with
     | some r, some c, some h =>
@@ -109,53 +133,60 @@ def stepM (st : St) (toks : List String) : St × List String :=
       if v ≥ 18446744073709551616 then bad st else
       let old := st.m[r]!
       let x := { old with u := insertVal P old.u (UInt64.ofNat v) }
-      (setM st r x, [showU x.u])
+      let b := UTable.insertHash RZ P (UTable.ensure P st.mb[r]!) (uintHash32 (UInt64.ofNat v)).toNat
+      (setB (setM st r x) r b, [showU x.u, showB b])
     | _, _ => bad st
   | ["insh", r, v] => match reg? r 16, v.toNat? with
     | some r, some v =>
       if v ≥ 4294967296 then bad st else
       let old := st.m[r]!
       let x := { old with u := insertHash P (ensure P old.u) v }
-      (setM st r x, [showU x.u])
+      let b := UTable.insertHash RZ P (UTable.ensure P st.mb[r]!) v
+      (setB (setM st r x) r b, [showU x.u, showB b])
     | _, _ => bad st
   | ["seq", r, base, stride, n] => match reg? r 16, base.toNat?, stride.toNat?, n.toNat? with
     | some r, some base, some stride, some n =>
       if n = 0 || n > 300000 then bad st else
       let old := st.m[r]!
       let x := { old with u := seqInsert (ensure P old.u) base stride n 0 }
-      (setM st r x, [showU x.u])
+      let b := seqInsertB (UTable.ensure P st.mb[r]!) base stride n 0
+      (setB (setM st r x) r b, [showU x.u, showB b])
     | _, _, _, _ => bad st
   | ["merge", r1, r2, d] => match reg? r1 16, reg? r2 16, d.toNat? with
     | some r1, some r2, some d =>
       let a := st.m[r1]!
       let b := st.m[r2]!
       let x := mergeMulti MV P d a b
-      (setM st r1 x, [s!"drew={b01 (needsDraw a.v b.v.cnt b.v.chost)}", showV x.v, showU x.u])
+      let tb := UTable.merge RZ P st.mb[r1]! st.mb[r2]!
+      (setB (setM st r1 x) r1 tb, [s!"drew={b01 (needsDraw a.v b.v.cnt b.v.chost)}", showV x.v, showU x.u, showB tb])
     | _, _, _ => bad st
   | ["umerge", r1, r2] => match reg? r1 16, reg? r2 16 with
     | some r1, some r2 =>
       let a := st.m[r1]!
       let x := { a with u := Unique.merge MV P a.u st.m[r2]!.u }
-      (setM st r1 x, [showU x.u])
+      let tb := UTable.merge RZ P st.mb[r1]! st.mb[r2]!
+      (setB (setM st r1 x) r1 tb, [showU x.u, showB tb])
     | _, _ => bad st
   | ["mread", r1, r2] => match reg? r1 16, reg? r2 16 with
     | some r1, some r2 =>
       let a := st.m[r1]!
       let x := { a with u := mergeRead RV SV P a.u (marshal P st.m[r2]!.u) }
-      (setM st r1 x, [showU x.u])
+      let tb := UTable.mergeRead RZ SV P st.mb[r1]! (UTable.marshal st.mb[r2]!)
+      (setB (setM st r1 x) r1 tb, [showU x.u, showB tb])
     | _, _ => bad st
   | ["um", r1, r2] => match reg? r1 16, reg? r2 16 with
     | some r1, some r2 =>
       let a := st.m[r1]!
       let x := { a with u := unmarshal SV P (marshal P st.m[r2]!.u) }
-      (setM st r1 x, [showU x.u])
+      let tb := UTable.unmarshal SV P (UTable.marshal st.mb[r2]!)
+      (setB (setM st r1 x) r1 tb, [showU x.u, showB tb])
     | _, _ => bad st
   | _ => bad st
 
 def stepT (st : St) (toks : List String) : St × List String :=
   match toks with
   | ["copy", t1, t2] => match reg? t1 8, reg? t2 8 with
-    | some t1, some t2 => (setT st t1 st.t[t2]!, [])
+    | some t1, some t2 => (setTB (setT st t1 st.t[t2]!) t1 st.tb[t2]!, [])
     | _, _ => bad st
   | "set" :: t :: r :: rest => match reg? t 8, reg? r 16, ints? rest with
     | some t, some r, some [mn, mx, sum, count, sq, card, mina, minv, maxa, maxv, smina, sminv, smaxa, smaxv] =>
@@ -164,12 +195,15 @@ def stepT (st : St) (toks : List String) : St × List String :=
                       minHost := ⟨mina.toNat, minv⟩, maxHost := ⟨maxa.toNat, maxv⟩,
                       minHostStr := ⟨smina.toNat, sminv⟩, maxHostStr := ⟨smaxa.toNat, smaxv⟩,
                       u := unmarshal SV P (marshal P st.m[r]!.u) }
-      (setT st t x, [showT x, showU x.u])
+      let b := UTable.unmarshal SV P (UTable.marshal st.mb[r]!)
+      (setTB (setT st t x) t b, [showT x, showU x.u, showB b])
     | _, _, _ => bad st
   | ["merge", t1, t2] => match reg? t1 8, reg? t2 8 with
     | some t1, some t2 =>
       let x := tsMerge MV P st.t[t1]! st.t[t2]!
-      (setT st t1 x, [showT x, showU x.u])
+      let b := if st.t[t1]!.mergeCount = 0 then UTable.merge RZ P (UTable.merge RZ P UTable.nilTb st.tb[t1]!) st.tb[t2]!
+               else UTable.merge RZ P st.tb[t1]! st.tb[t2]!
+      (setTB (setT st t1 x) t1 b, [showT x, showU x.u, showB b])
     | _, _ => bad st
   | _ => bad st
 
